@@ -224,6 +224,30 @@ func (c *fakeGnetConn) readEvent(g *router.VerifGnet, seg []byte) (gnet.Action, 
 }
 
 // ---------------------------------------------------------------- the runner
+// what a feeder calls around the write of segment i (either may be nil)
+type segHooks struct {
+	before func(i int, out *sink)
+	after  func(i int)
+}
+
+func (h segHooks) pre(i int, out *sink) {
+	if h.before != nil {
+		h.before(i, out)
+	}
+}
+func (h segHooks) post(i int) {
+	if h.after != nil {
+		h.after(i)
+	}
+}
+
+func idleOr(d time.Duration) time.Duration {
+	if d <= 0 {
+		return time.Hour
+	}
+	return d
+}
+
 func parseSegs(s string) ([][]byte, error) {
 	if s == "" || s == "-" {
 		return nil, nil
@@ -301,39 +325,44 @@ func runStream(id string, parts []string) string {
 		tr := "-"
 		switch f["via"] + "/" + f["l"] {
 		case "feed/gnet":
-			raw, closed, tr = feedGnet(env, maxc, segs, exp, hc, grace, max, pause)
+			raw, closed, tr = feedGnet(env, maxc, segs, exp, hc, grace, max, segHooks{before: pause}, 0)
 		case "feed/tcp":
-			raw, closed = feedTcp(env, maxc, segs, exp, hc, grace, max, pause, false)
+			raw, closed = feedTcp(env, maxc, segs, exp, hc, grace, max, segHooks{before: pause}, false, 0)
 		case "feed/dot":
-			raw, closed = feedTcp(env, maxc, segs, exp, hc, grace, max, pause, true)
+			raw, closed = feedTcp(env, maxc, segs, exp, hc, grace, max, segHooks{before: pause}, true, 0)
 		default:
-			raw, closed = sockStream(env.Ports[f["l"]], segs, gap, exp, hc, grace, max, pause)
+			raw, closed = sockStream(env.Ports[f["l"]], segs, gap, exp, hc, grace, max, segHooks{before: pause})
 		}
-		units, leftover := splitFrames(raw)
-		var us, ans, ord []string
-		for _, u := range units {
-			us = append(us, hx.Hex(u))
-			if len(u) >= 4 {
-				ans = append(ans, fmt.Sprintf("%02x%02x:%d", u[0], u[1], u[3]&15))
-				ord = append(ord, fmt.Sprintf("%02x%02x", u[0], u[1]))
-			} else {
-				ans = append(ans, "short")
-			}
-		}
-		sort.Strings(us)
-		sort.Strings(ans)
 		alive := "-"
 		if f["probe"] == "1" {
 			alive = probeAlive(env, f["via"], f["l"], maxc)
 		}
-		st := "open"
-		if closed {
-			st = "closed"
-		}
-		return fmt.Sprintf("st=%s n=%d units=%s ans=%s bad=%d alive=%s tr=%s ord=%s raw=%s", st, len(units),
-			strings.Join(orDash(us), ","), strings.Join(orDash(ans), ","), b2i(leftover), alive, tr,
-			strings.Join(orDash(ord), ","), orDashS(hx.Hex(raw)))
+		return streamResult(raw, closed, alive, tr)
 	})
+}
+
+// the canonical result of one connection: what was read back, parsed as frames
+func streamResult(raw []byte, closed bool, alive, tr string) string {
+	units, leftover := splitFrames(raw)
+	var us, ans, ord []string
+	for _, u := range units {
+		us = append(us, hx.Hex(u))
+		if len(u) >= 4 {
+			ans = append(ans, fmt.Sprintf("%02x%02x:%d", u[0], u[1], u[3]&15))
+			ord = append(ord, fmt.Sprintf("%02x%02x", u[0], u[1]))
+		} else {
+			ans = append(ans, "short")
+		}
+	}
+	sort.Strings(us)
+	sort.Strings(ans)
+	st := "open"
+	if closed {
+		st = "closed"
+	}
+	return fmt.Sprintf("st=%s n=%d units=%s ans=%s bad=%d alive=%s tr=%s ord=%s raw=%s", st, len(units),
+		strings.Join(orDash(us), ","), strings.Join(orDash(ans), ","), b2i(leftover), alive, tr,
+		strings.Join(orDash(ord), ","), orDashS(hx.Hex(raw)))
 }
 
 func orDashS(s string) string {
@@ -343,8 +372,9 @@ func orDashS(s string) string {
 	return s
 }
 
-func feedGnet(env *hx.RouterEnv, maxc int, segs [][]byte, exp int, hc string, grace, max time.Duration, pause func(int, *sink)) ([]byte, bool, string) {
-	g := env.R.VerifNewGnet(int32(maxc), time.Hour)
+// idle: the listener's idle timeout (0 = one hour: the timer never matters)
+func feedGnet(env *hx.RouterEnv, maxc int, segs [][]byte, exp int, hc string, grace, max time.Duration, hooks segHooks, idle time.Duration) ([]byte, bool, string) {
+	g := env.R.VerifNewGnet(int32(maxc), idleOr(idle))
 	c := newFakeGnetConn()
 	defer close(c.tasks)
 	var act gnet.Action
@@ -358,32 +388,38 @@ func feedGnet(env *hx.RouterEnv, maxc int, segs [][]byte, exp int, hc string, gr
 		if len(s) == 0 {
 			continue
 		}
-		pause(i, c.out)
+		hooks.pre(i, c.out)
+		if c.isClosed() { // closed by the idle timer (time.AfterFunc -> c.Close): no more read events
+			closed = true
+			break
+		}
 		a, d := c.readEvent(g, s)
+		hooks.post(i)
 		tr = append(tr, d)
 		if a == gnet.Close {
 			closed = true
 		}
 	}
-	if closed {
-		c.onLoop(func() { c.markClosed(); g.OnClose(c, nil) })
-	} else {
+	if !closed {
 		waitSink(c.out, exp, "0", grace, max)
+		closed = c.isClosed()
 		c.onLoop(func() { c.markClosed(); g.OnClose(c, errors.New("verif: client closed")) })
+	} else {
+		c.onLoop(func() { c.markClosed(); g.OnClose(c, nil) })
 	}
 	raw, _ := c.out.snapshot()
 	return raw, closed, strings.Join(orDash(tr), ";")
 }
 
-func feedTcp(env *hx.RouterEnv, maxc int, segs [][]byte, exp int, hc string, grace, max time.Duration, pause func(int, *sink), dot bool) ([]byte, bool) {
+func feedTcp(env *hx.RouterEnv, maxc int, segs [][]byte, exp int, hc string, grace, max time.Duration, hooks segHooks, dot bool, idle time.Duration) ([]byte, bool) {
 	pcl, sv := net.Pipe()
 	var cl net.Conn = pcl
 	done := make(chan struct{})
 	go func() {
 		if dot {
-			env.R.VerifDotHandleConn(sv, int32(maxc), time.Hour)
+			env.R.VerifDotHandleConn(sv, int32(maxc), idleOr(idle))
 		} else {
-			env.R.VerifTcpHandleConn(sv, int32(maxc), time.Hour)
+			env.R.VerifTcpHandleConn(sv, int32(maxc), idleOr(idle))
 		}
 		close(done)
 	}()
@@ -416,9 +452,11 @@ func feedTcp(env *hx.RouterEnv, maxc int, segs [][]byte, exp int, hc string, gra
 		if len(s) == 0 {
 			continue
 		}
-		pause(i, out)
+		hooks.pre(i, out)
 		cl.SetWriteDeadline(time.Now().Add(5 * time.Second))
-		if _, err := cl.Write(s); err != nil {
+		_, err := cl.Write(s)
+		hooks.post(i)
+		if err != nil {
 			break
 		}
 	}
@@ -437,7 +475,7 @@ func feedTcp(env *hx.RouterEnv, maxc int, segs [][]byte, exp int, hc string, gra
 	return raw, closed
 }
 
-func sockStream(port int, segs [][]byte, gap time.Duration, exp int, hc string, grace, max time.Duration, pause func(int, *sink)) ([]byte, bool) {
+func sockStream(port int, segs [][]byte, gap time.Duration, exp int, hc string, grace, max time.Duration, hooks segHooks) ([]byte, bool) {
 	c, err := net.DialTimeout("tcp", fmt.Sprintf("127.0.0.1:%d", port), 2*time.Second)
 	if err != nil {
 		return nil, true
@@ -468,9 +506,11 @@ func sockStream(port int, segs [][]byte, gap time.Duration, exp int, hc string, 
 		if i > 0 && gap > 0 {
 			time.Sleep(gap)
 		}
-		pause(i, out)
+		hooks.pre(i, out)
 		c.SetWriteDeadline(time.Now().Add(5 * time.Second))
-		if _, err := c.Write(s); err != nil {
+		_, err := c.Write(s)
+		hooks.post(i)
+		if err != nil {
 			break
 		}
 	}
@@ -478,8 +518,6 @@ func sockStream(port int, segs [][]byte, gap time.Duration, exp int, hc string, 
 	raw, closed := out.snapshot()
 	return raw, closed
 }
-
-func nopause(int, *sink) {}
 
 // a fresh connection with one valid query must still be answered
 func probeAlive(env *hx.RouterEnv, via, l string, maxc int) string {
@@ -492,13 +530,13 @@ func probeAlive(env *hx.RouterEnv, via, l string, maxc int) string {
 	var raw []byte
 	switch via + "/" + l {
 	case "feed/gnet":
-		raw, _, _ = feedGnet(env, maxc, [][]byte{fr}, 1, "0", 5*time.Millisecond, 3*time.Second, nopause)
+		raw, _, _ = feedGnet(env, maxc, [][]byte{fr}, 1, "0", 5*time.Millisecond, 3*time.Second, segHooks{}, 0)
 	case "feed/tcp":
-		raw, _ = feedTcp(env, maxc, [][]byte{fr}, 1, "0", 5*time.Millisecond, 3*time.Second, nopause, false)
+		raw, _ = feedTcp(env, maxc, [][]byte{fr}, 1, "0", 5*time.Millisecond, 3*time.Second, segHooks{}, false, 0)
 	case "feed/dot":
-		raw, _ = feedTcp(env, maxc, [][]byte{fr}, 1, "0", 5*time.Millisecond, 3*time.Second, nopause, true)
+		raw, _ = feedTcp(env, maxc, [][]byte{fr}, 1, "0", 5*time.Millisecond, 3*time.Second, segHooks{}, true, 0)
 	default:
-		raw, _ = sockStream(env.Ports[l], [][]byte{fr}, 0, 1, "0", 5*time.Millisecond, 3*time.Second, nopause)
+		raw, _ = sockStream(env.Ports[l], [][]byte{fr}, 0, 1, "0", 5*time.Millisecond, 3*time.Second, segHooks{})
 	}
 	u, left := splitFrames(raw)
 	if len(u) == 1 && !left && len(u[0]) >= 2 && u[0][0] == 0xbe && u[0][1] == 0xef {
